@@ -540,3 +540,36 @@ def _gamma_len_lemma(c, a, b):
 
 from . import terms as _terms
 _terms.GAMMA_HOOK[0] = _gamma_len_lemma
+
+
+def lower_bound(t, depth=0):
+    """syntactic lower bound of an integer term (None = unknown); gated alternatives take the minimum"""
+    if depth > 60:
+        return None
+    k = t.k
+    if k == "const":
+        v = t.a[0]
+        return int(v) if isinstance(v, (int, bool)) else None
+    if k == "gamma":
+        # an `undef` alternative is a merge artefact: the attribute of an object that exists only on the other
+        # exit path of an inlined callee; that combination is unreachable
+        if t.a[1].k == "undef":
+            return lower_bound(t.a[2], depth + 1)
+        if t.a[2].k == "undef":
+            return lower_bound(t.a[1], depth + 1)
+        a, b = lower_bound(t.a[1], depth + 1), lower_bound(t.a[2], depth + 1)
+        return None if a is None or b is None else min(a, b)
+    if k == "op" and t.a[0] == "+":
+        a, b = lower_bound(t.a[1], depth + 1), lower_bound(t.a[2], depth + 1)
+        return None if a is None or b is None else a + b
+    if k == "op" and t.a[0] == "*" and t.a[2].k == "const" and isinstance(t.a[2].a[0], int) and t.a[2].a[0] >= 0:
+        a = lower_bound(t.a[1], depth + 1)
+        return None if a is None else a * t.a[2].a[0]
+    if k == "un" and t.a[0] == "len":
+        return 0
+    if k in ("idx", "sum"):
+        return 0
+    if k == "enumcast":
+        return lower_bound(t.a[1], depth + 1)
+    lo, _hi = term_range(t)
+    return lo
